@@ -277,9 +277,9 @@ type c11ObjView struct {
 	CLen    string            `json:"clen"`
 	Meta    map[string]string `json:"meta"`
 	Vid     string            `json:"vid"`
-	Tags    string            `json:"tags"`    // canonical k=v&k=v, "-" = none, "!<status>" = error
-	Head    string            `json:"head"`    // status:len:etag
-	ListSz  string            `json:"list"`    // size:etag from ListObjectsV2, "-" = not listed
+	Tags    string            `json:"tags"` // canonical k=v&k=v, "-" = none, "!<status>" = error
+	Head    string            `json:"head"` // status:len:etag
+	ListSz  string            `json:"list"` // size:etag from ListObjectsV2, "-" = not listed
 }
 
 type listV2 struct {
